@@ -4,7 +4,7 @@ import types
 
 import numpy as np
 
-from symx.case import Case, Ang, run_cases, replay_cases
+from symx.case import Case, Ang, Holds, run_cases, replay_cases
 from symx.core import R, Dual, CTX, var, PI
 from symx.stubs import carrier
 
@@ -409,4 +409,270 @@ def groups(tier):
 
 
 def replay(ob, model):
+    return replay_cases(all_cases("thorough"), ob, model)
+
+
+# =========================================================================== keplerian -> cartesian -> keplerian
+def kck_case(family, timeout=120):
+    """the code's cartesian->keplerian is a left inverse of the (reference-checked) keplerian->cartesian: together with k2c/<family>
+    this shows that it returns the elements of the textbook parametrisation"""
+    def run(env, v):
+        f = F(env)
+        b = body_of(env, v["mu"])
+        c = f._keplerian_to_cartesian(kvec(env, v, "nu"), b)
+        k = f._cartesian_to_keplerian(c, b)
+        return {"a": k[0], "e": k[1], "i": Ang(k[2]), "Om": Ang(k[3]), "om": Ang(k[4]), "nu": Ang(k[5])}
+
+    def ref(env, v, out):
+        return {"a": v["a"], "e": v["e"], "i": Ang(v["i"]), "Om": Ang(v["Om"]), "om": Ang(v["om"]), "nu": Ang(v["nu"])}
+
+    def hints(v):
+        mu, a, e = v["mu"], v["a"], v["e"]
+        ci, si = CTX.atom("i")
+        cn, sn = CTX.atom("nu")
+        p = a * (1 - e * e)
+        H = (mu * p).sqrt()
+        rk = p / (1 + e * cn)
+        return [rk, e, H * si, H / mu, e * rk, rk * si, si, H]
+    return Case(f"kck/{family}", kep_inputs(family), run, ref, pre=kep_pre(family), timeout=timeout, hints=hints,
+                tol=1e-6, abs_tol=1e-6,
+                desc=f"{family}: keplerian -> cartesian -> keplerian is the identity (proved closed forms for |h|, |r|, ... as hints)")
+
+
+# =========================================================================== M2E: whatever is returned solves Kepler's equation
+TOL = 1e-8
+
+
+def m2e_case(family, maxdepth):
+    """Executes the real Form.M2E symbolically up to `maxdepth` decisions (start-branch choice + loop exits after 0, 1, ...
+    further Newton steps).  On every path that returns, the exit test |E1-E| < tol holds; with the Lipschitz lemma for
+    sin (resp. the convexity lemma for sinh) the Kepler residual of the returned value is <= 2 e tol (resp. 2 e tol cosh)."""
+    ins = [("e", "pos"), ("M", "real")]
+    rec = {}
+
+    def pre(v):
+        return [v["e"] < 1] if family == "ell" else [v["e"] > 1]
+
+    def run(env, v):
+        forms = env.mod("beyond.orbits.forms")
+        if env.symbolic:
+            calls = {"sin": [], "cos": [], "sinh": [], "cosh": []}
+
+            def hook(name):
+                def f(x):
+                    r = getattr(x, name)()
+                    calls[name].append((x, r))
+                    return r
+                return f
+            saved = {k: getattr(forms, k) for k in calls}
+            for k in calls:
+                setattr(forms, k, hook(k))
+            steps = []
+
+            def _abs(x):
+                steps.append(x)
+                return abs(x)
+            forms.abs = _abs
+            try:
+                E1 = forms.Form.M2E(v["e"], v["M"])
+            finally:
+                del forms.abs
+                for k, f in saved.items():
+                    setattr(forms, k, f)
+            xstep = steps[-1]                     # the code's own E1 - E in its last exit test
+            if family == "ell":
+                E0, s0 = calls["sin"][-1]             # the iterate of the last Newton step and the code's own sin(E0)
+                d = E1 - E0
+                s1 = E1.sin()
+                res = v["M"] - E1 + v["e"] * s1
+                bound = 2 * v["e"] * TOL
+                c0 = calls["cos"][-1][1]
+                alt = v["e"] * (s1 - s0) - v["e"] * c0 * d      # residual rewritten through the Newton step
+                rec["alt"] = alt
+                rec["d"] = d
+                rec["lemma"] = [(s1 - s0) * (s1 - s0) <= d * d]
+            else:
+                E0, sh0 = calls["sinh"][-1]
+                ch0 = calls["cosh"][-1][1]
+                d = E1 - E0
+                sh1, ch1 = E1.sinh(), E1.cosh()
+                res = v["M"] - v["e"] * sh1 + E1
+                mx = ch1 + ch0                      # >= max(ch0, ch1), avoids a fork
+                bound = 2 * v["e"] * TOL * mx
+                alt = v["e"] * ch0 * d - v["e"] * (sh1 - sh0)
+                rec["alt"] = alt
+                rec["d"] = d
+                rec["lemma"] = [(sh1 - sh0) * (sh1 - sh0) <= mx * mx * d * d]
+            # abstract bound lemma over fresh variables (u = s1-s0 resp. sh1-sh0, c = cos E0 resp. cosh terms, dd = E1-E0)
+            import z3
+            from symx.core import SB
+            le, lu, lc, ld, lm = [z3.Real("lem_" + k) for k in "e u c d m".split()]
+            t = z3.RealVal(TOL)
+            if family == "ell":
+                lemma = z3.Implies(z3.And(le > 0, lu * lu <= ld * ld, lc * lc <= 1, ld * ld < t * t),
+                                   (le * lu - le * lc * ld) * (le * lu - le * lc * ld) <= 4 * le * le * t * t)
+            else:   # lc = cosh E0 in [1, lm], lm = ch0 + ch1, |u| <= lm |d|
+                lemma = z3.Implies(z3.And(le > 0, lc >= 1, lc <= lm, lu * lu <= lm * lm * ld * ld, ld * ld < t * t),
+                                   (le * lc * ld - le * lu) * (le * lc * ld - le * lu) <= 4 * le * le * t * t * lm * lm)
+            return {"residual_identity": res, "step": xstep, "exit_step_small": Holds((xstep < TOL) & (xstep > -TOL)),
+                    "bound_lemma": Holds(SB(lemma))}
+        import signal
+
+        def _to(*a):
+            raise TimeoutError("M2E did not terminate within 5 s")
+        signal.signal(signal.SIGALRM, _to)
+        signal.alarm(5)
+        try:
+            E1 = forms.Form.M2E(v["e"], v["M"])
+        except TimeoutError:
+            return {"residual_identity": 0, "step": 0, "exit_step_small": Holds(False), "bound_lemma": Holds(True)}
+        finally:
+            signal.alarm(0)
+        if family == "ell":
+            res = v["M"] - E1 + v["e"] * math.sin(E1)
+            return {"residual_identity": 0, "step": 0, "exit_step_small": Holds(abs(res) <= 2 * v["e"] * TOL + 1e-12 * (1 + abs(v["M"]))), "bound_lemma": Holds(True)}
+        res = v["M"] - v["e"] * math.sinh(E1) + E1
+        return {"residual_identity": 0, "step": 0, "exit_step_small": Holds(abs(res) <= 2 * v["e"] * TOL * math.cosh(E1) + 1e-12 * (1 + abs(v["M"]))), "bound_lemma": Holds(True)}
+
+    def ref(env, v, out):
+        return {"residual_identity": rec.get("alt", 0), "step": rec.get("d", 0), "exit_step_small": None, "bound_lemma": None}
+
+    def lem(v, out):
+        return rec.get("lemma", [])
+    return Case(f"M2E/{family}", ins, run, ref, pre=pre, timeout=120, maxdepth=maxdepth, maxpaths=400, tol=0, abs_tol=0.5,
+                extra_assumptions=lem,
+                desc=f"{family}: on every return path of M2E (start branch x exits after <= k Newton steps, unwinding bound "
+                     f"{maxdepth} decisions) the returned anomaly solves Kepler's equation to 2 e tol")
+
+
+# =========================================================================== Infos
+def infos_case(family):
+    from symx.stubs import FrameStub, SymTD
+
+    def mkorb(env, v):
+        if env.symbolic:
+            forms = env.mod("beyond.orbits.forms")
+            sv = env.mod("beyond.orbits.statevector")
+            sv.timedelta = lambda seconds=0: SymTD(seconds)
+            orb = carrier([v["a"], v["e"], v["i"], v["Om"], v["om"], v["nu"]], frame=FrameStub("EME2000", v["mu"], r=0),
+                          form=forms.KEPL)
+            return sv.Infos(orb), v["mu"]
+        from beyond.orbits import StateVector
+        from beyond.dates import Date
+        from beyond.constants import Earth
+        orb = StateVector([v["a"], v["e"], v["i"], v["Om"], v["om"], v["nu"]], Date(2020, 1, 1), "keplerian", "EME2000")
+        return orb.infos, Earth.mu
+
+    def phys(env, v):
+        if env.symbolic:
+            return v
+        v = dict(v)          # concrete replay: the real central body (Earth) and a physical length scale
+        v["a"] = v["a"] * 1e7
+        return v
+
+    def run(env, v):
+        v = phys(env, v)
+        inf, mu = mkorb(env, v)
+        a, e = v["a"], v["e"]
+        out = {}
+        r, sp = inf.r, inf.v
+        out["r"] = r
+        out["energy"] = inf.energy
+        out["n2a3"] = inf.n * inf.n * abs(a) ** 3
+        out["rp"] = inf.pericenter
+        out["vp_rp"] = inf.vp * inf.rp                       # = h
+        out["v2"] = sp * sp
+        cf, sf = inf.cos_fpa, inf.sin_fpa
+        out["cos_fpa"] = cf
+        out["sin_fpa"] = sf
+        out["fpa"] = Ang(inf.fpa)
+        if family == "ell":
+            out["period_n"] = inf.period.total_seconds() * inf.n
+            out["ra+rp"] = inf.apocenter + inf.pericenter
+            out["va_ra"] = inf.va * inf.ra
+        else:
+            out["vinf2"] = inf.vinf * inf.vinf
+            out["dinf"] = inf.dinf
+        return out
+
+    def ref(env, v, out):
+        v = phys(env, v)
+        mu = v["mu"] if env.symbolic else __import__("beyond.constants", fromlist=["Earth"]).Earth.mu
+        a, e, nu = v["a"], v["e"], v["nu"]
+        p = a * (1 - e * e)
+        r = p / (1 + e * env.cos(nu))
+        h = env.sqrt(mu * p)
+        c = perifocal(env, v, mu, a, e, v["i"], v["Om"], v["om"], nu)
+        v2 = c[3] * c[3] + c[4] * c[4] + c[5] * c[5]                  # speed from the cartesian state
+        rv = c[0] * c[3] + c[1] * c[4] + c[2] * c[5]
+        sp = env.sqrt(v2)
+        ref = {"r": r, "energy": v2 / 2 - mu / r, "n2a3": mu, "rp": a * (1 - e), "vp_rp": h, "v2": v2,
+               "cos_fpa": h / (r * sp), "sin_fpa": rv / (r * sp),
+               "fpa": Ang(env.arctan2(e * env.sin(nu), 1 + e * env.cos(nu)))}
+        if family == "ell":
+            ref.update({"period_n": 2 * env.pi, "ra+rp": 2 * a, "va_ra": h})
+        else:
+            ref.update({"vinf2": -mu / a, "dinf": -a * env.sqrt(e * e - 1)})
+        return ref
+
+    def hints(v):
+        mu, a, e = v["mu"], v["a"], v["e"]
+        cn, sn = CTX.atom("nu")
+        p = a * (1 - e * e)
+        return [p / (1 + e * cn), (mu * p).sqrt()]
+    return Case(f"infos/{family}", kep_inputs(family), run, ref, pre=kep_pre(family), timeout=60, hints=hints, tol=1e-6,
+                abs_tol=1e-6, signature=f"Infos relations ({family})",
+                desc=f"{family}: Infos.r/energy/n/period/apsides/v/va/vp/vinf/dinf/fpa obey their defining relations "
+                     "(vis-viva from the cartesian speed, angular momentum at the apsides, tan(fpa) = e sin nu/(1+e cos nu))")
+
+
+# =========================================================================== routing over the real form graph
+def routing_group():
+    """every ordered pair of the 10 forms: Form.steps() follows existing `_a_to_b` functions (finite: 100 pairs, enumerated)"""
+    import importlib
+    forms = importlib.import_module("beyond.orbits.forms")
+    from symx import solve
+    import z3
+    names = sorted({f.name for f in forms._cache.values()})
+    obs = []
+    bad = []
+    for a in names:
+        for b in names:
+            if a == b:
+                continue
+            steps = list(forms._cache[a].steps(b))
+            ok = steps[0][0].name == a and steps[-1][1].name == b and all(
+                hasattr(forms.Form, f"_{x.name.lower()}_to_{y.name.lower()}") for x, y in steps) and all(
+                steps[k][1] is steps[k + 1][0] for k in range(len(steps) - 1)) and len({x.name for x, _ in steps}) == len(steps)
+            if not ok:
+                bad.append((a, b))
+    s = z3.Solver()
+    flag = z3.Bool("routing_broken")
+    s.add(flag == z3.BoolVal(bool(bad)))
+    s.add(flag)
+    obs.append(dict(name="routing/100pairs", smt2=s.sexpr(), trivial=False, expect="unsat", vars=["routing_broken"],
+                    desc=f"all {len(names) * (len(names) - 1)} ordered pairs of forms route through existing edge functions "
+                         f"without repetition (enumerated concretely; the solver only checks the recorded flag): bad={bad}",
+                    replay={"case": "routing"}, timeout=10, solver="z3", tags=["enumerated"], n_constraints=2))
+    return obs, {"paths": len(names) * (len(names) - 1)}
+
+
+def all_cases(tier):          # noqa: F811  (extends the list defined above)
+    cs = [sph_def_case(), sph_back_case(), cyl_case(), cyl_back_case()]
+    for fam in ("ell", "hyp"):
+        cs += [ecc_case(fam), ecc_back_case(fam), mean_case(fam), k2c_case(fam), kck_case(fam, 30 if tier == "quick" else 600),
+               m2e_case(fam, 8 if tier == "quick" else 11), infos_case(fam)]
+    cs += [tle_case(), tle_back_case(), circ_case(False), circ_case(True), equi_case(), c2k_def_case("any")]
+    return cs
+
+
+def groups(tier):             # noqa: F811
+    g = {c.name.replace("/", "_"): (lambda c=c: run_cases([c])) for c in all_cases(tier)}
+    g["routing"] = routing_group
+    return g
+
+
+def replay(ob, model):        # noqa: F811
+    if ob["replay"]["case"] == "routing":
+        return {"reproduced": True, "signature": "form routing", "detail": ob.get("desc", "")}
     return replay_cases(all_cases("thorough"), ob, model)
